@@ -455,3 +455,17 @@ Proof.
   - destruct (ne_matched e); [| tauto].
     destruct (mem_ns (Some (ne_name e)) nss); [tauto |]. cbn. split; [intros [H | H]; [congruence | assumption] | tauto].
 Qed.
+
+Lemma served_pairs_watched : forall hs i k,
+  In k (served i) -> In k (watchers (run_adjust (hs ++ [i]))).
+Proof.
+  intros hs i k H. unfold run_adjust. rewrite fold_left_app. exact (adjust_covers i _ k H).
+Qed.
+
+Lemma namespace_insights : forall nss e,
+  (is_deleted e = true -> ne_blocked e = false -> ~ In (Some (ne_name e)) (revise_one nss e)) /\
+  (is_deleted e = false -> ne_matched e = true -> In (Some (ne_name e)) (revise_one nss e)) /\
+  (forall n, n <> Some (ne_name e) -> (In n (revise_one nss e) <-> In n nss)).
+Proof.
+  intros nss e. exact (conj (revise_one_deleted nss e) (conj (revise_one_matched nss e) (revise_one_others nss e))).
+Qed.
